@@ -322,6 +322,10 @@ class Env:
         return self.default_result(rec)
 
     def do_send(self, sm, ev, tag):
+        if ev.startswith("="):
+            # external write of a valid state value from inside the callback
+            sm.current_state_value = self.built.m.state(ev[1:]).val
+            return None
         if self.call_style == "method":
             return getattr(sm, ev)(tag=tag)
         return sm.send(ev, tag=tag)
